@@ -12,12 +12,15 @@ def _engines():
         es[n] = dict(e)
     for e in es.values():
         if e["name"] != "lean-model":
-            e["serves_properties"] = sorted(p for p in config.PROPS if config.META[p]["engine"] == e["name"] or e["name"] in [r[0] for t in config.PROPS[p]["runs"].values() for r in t])
-    es["lean-model"]["serves_properties"] = sorted(config.PROPS)
+            e["serves_properties"] = sorted(p for p in CLAIMED if config.META[p]["engine"] == e["name"] or e["name"] in [r[0] for t in config.PROPS[p]["runs"].values() for r in t])
+    es["lean-model"]["serves_properties"] = sorted(CLAIMED)
     return list(es.values())
+import subprocess
+_tracked = set(os.path.basename(f)[:-3] for f in subprocess.run(["git", "-C", VERIF, "ls-files", "tools/props"], capture_output=True, text=True).stdout.split())
+CLAIMED = [p for p in ALL if p in config.PROPS and p in _tracked]   # only property files under version control
 checks = []
 for pid in ALL:
-    if pid not in config.PROPS:
+    if pid not in CLAIMED:
         continue
     c = config.PROPS[pid]
     meta = config.META[pid]
@@ -32,7 +35,7 @@ for pid in ALL:
         "level_note": meta["note"],
         "technique": meta["technique"],
     })
-na = [{"property_id": p, "reason": mm.NOT_CLAIMED.get(p, "check not built yet; see DESIGN.md section 3 for the planned theorems")} for p in ALL if p not in config.PROPS]
+na = [{"property_id": p, "reason": mm.NOT_CLAIMED.get(p, "check not built yet; see DESIGN.md section 3 for the planned theorems")} for p in ALL if p not in CLAIMED]
 man = {
     "version": 1,
     "setup_cmd": "cd /verif/lean && lake build PopsModel popsdriver",
